@@ -3719,7 +3719,13 @@ def _decode_signed_value_v1(
     if not hmac.compare_digest(parts[2], signature):
         gen_log.warning("Invalid cookie signature %r", value)
         return None
-    timestamp = int(parts[1])
+    try:
+        timestamp = int(parts[1])
+    except ValueError:
+        # The signature does not delimit its parts, so a correctly signed
+        # value can be re-split into one with a non-numeric timestamp.
+        gen_log.warning("Tampered cookie %r", value)
+        return None
     if timestamp < clock() - max_age_days * 86400:
         gen_log.warning("Expired cookie %r", value)
         return None
